@@ -42,6 +42,9 @@ def run(e: Engine, rep: Report):
              'error arm of _deliver resets the transaction')
     rep.rule('L6', 'after re-queuing on a server timeout no further '
              'delivery or poll happens in this client')
+    rep.rule('L7', 'no silent `with Timeout(t, False)` encloses a protocol '
+             'exchange of the relay client: a swallowed timeout leaves a '
+             'reply owed on a connection that is then reused')
     rep.not_decided += ['real interleavings of greenlets (the rules decide '
                         'the per-function structure those interleavings '
                         'rely on)', 'numeric pool sizes']
@@ -49,6 +52,7 @@ def run(e: Engine, rep: Report):
     pool.request_typestate(e, rep, 'L3')
     l4(e, rep)
     l5_l6(e, rep)
+    l7(e, rep)
     rep.floor('L1', 4, 'pool growth sites')
     rep.floor('L4', 9, 'deque overrides')
 
@@ -528,3 +532,37 @@ def l5_l6(e: Engine, rep: Report):
                       '_check_server_timeout() did not report a timeout',
                       loc=n.loc(), reason='dominated by the timeout test',
                       witness=dataflow.render_path(w) if w else None)
+
+
+
+def l7(e: Engine, rep: Report):
+    from ..cfg import _swallows_timeout
+    n = 0
+    for cq in e.concrete_classes(SMTPC):
+        c = e.p.classes[cq]
+        for mname, m in sorted(c.methods.items()):
+            for w in walk_own(m.node):
+                if not isinstance(w, ast.With):
+                    continue
+                for it in w.items:
+                    if not _swallows_timeout(it.context_expr):
+                        continue
+                    calls = [x for s_ in w.body for x in ast.walk(s_)
+                             if isinstance(x, ast.Call) and
+                             isinstance(x.func, ast.Attribute) and
+                             ast.unparse(x.func.value) == 'self.client']
+                    if not calls:
+                        continue
+                    n += 1
+                    rep.evaluations += 1
+                    rep.bad('L7', m.qname,
+                            'silent Timeout around client.%s()'
+                            % calls[0].func.attr,
+                            'a timeout of this exchange is swallowed '
+                            '(Timeout(..., False)): the client carries on '
+                            'with a reply still owed, the connection is '
+                            'reused and every later reply is paired with '
+                            'the wrong command / message', loc=m.loc(w))
+    if n == 0:
+        rep.ok('L7', SMTPC, 'no silent timeout around a client exchange',
+               reason='every Timeout around self.client.* raises')
